@@ -1,6 +1,7 @@
 //! rvmon: worker of the rscel runtime monitors. One process = one shard of one property's
 //! workload. See /verif/DESIGN.md section 2.
 
+mod astnorm;
 mod corpus;
 mod gen;
 mod hookmon;
